@@ -145,6 +145,35 @@ def actions_of(tp):
     return [(tp['id'], a)]
 
 
+class SpawnOnStr:
+    """A host value whose __str__ (called by the agent while it collects thread A's snapshot) runs a second program
+    thread to completion: thread B reaches its tracepoint while thread A's hit is still being processed."""
+
+    def __init__(self):
+        self.armed = True
+
+    def __str__(self):
+        if self.armed:
+            self.armed = False
+            import sys
+            import threading
+            f = sys._getframe()
+            while f is not None and f.f_code.co_name != 'f0':
+                f = f.f_back
+            g = f.f_globals
+            t = threading.Thread(target=g['RUN'], args=(lambda: g['M0'].f1(0), 'TB'), name='TB')
+            t.start()
+            t.join(30)
+        return 'gate'
+
+
+OVERLAP_PROG = {'files': [{'path': '/app/pkg/mod_a.py', 'src': True}],
+                'funcs': [{'name': 'f0', 'file': 0, 'kind': 'func', 'nparams': 1,
+                           'body': [['hold', 'h1', 0], ['mark', 'n'], ['ret', 'n']]},
+                          {'name': 'f1', 'file': 0, 'kind': 'func', 'nparams': 1,
+                           'body': [['set', 'a', 'n + 1'], ['mark', 'a'], ['ret', 'a']]}]}
+
+
 class C03(Prop):
     id = 'C03'
     level = 'exploration'
@@ -159,7 +188,8 @@ class C03(Prop):
                    'at most one program thread is runnable at a time']
     quick_examples = 500
     thorough_examples = 3000
-    floors = {'shared_location': 0.1, 'method_tp': 0.2, 'never_hit_tp': 0.2, 'fired': 0.5}
+    floors = {'shared_location': 0.1, 'method_tp': 0.2, 'never_hit_tp': 0.2, 'fired': 0.4,
+              'overlapping_threads': 0.05}
 
     def strategy(self, tier):
         line_where = st.one_of(
@@ -189,13 +219,63 @@ class C03(Prop):
 
         tps = st.tuples(st.lists(tp, min_size=1, max_size=4),
                         st.lists(st.tuples(st.integers(0, 3), st.sampled_from(ACTIONS)), max_size=2)).map(dup)
-        return st.fixed_dictionaries({
+        general = st.fixed_dictionaries({
             'prog': progs.program_recipes(),
             'tps': tps,
             'route': st.sampled_from(['triggers', 'response']),
         })
+        overlap = st.fixed_dictionaries({
+            'mode': st.just('overlap'),
+            'b_action': st.sampled_from(ACTIONS),
+            'b_kind': st.sampled_from(['line', 'method']),
+            'extra_a': st.sampled_from([None, 'log', 'metric']),
+            'route': st.sampled_from(['triggers', 'response']),
+        })
+        return st.one_of(general, general, general, general, general, general, overlap)
+
+    def run_overlap(self, recipe):
+        """Two threads overlap: B's whole hit happens while A's hit is inside collection (harness-owned schedule)."""
+        out = Outcome()
+        out.cls('overlapping_threads')
+        out.nontrivial = True
+        lab.reset_world()
+        rendered = progs.render(OVERLAP_PROG)
+        a_line = [st_ for st_ in rendered.stmts if st_['func'] == 'f0' and st_['kind'] == 'mark'][0]['line']
+        b_line = [st_ for st_ in rendered.stmts if st_['func'] == 'f1' and st_['kind'] == 'mark'][0]['line']
+        tps = [{'id': 'tp0', 'kind': 'line', 'path': 'mod_a.py', 'line': a_line, 'name': None, 'action': 'snapshot'}]
+        if recipe['extra_a']:
+            tps.append({'id': 'tp1', 'kind': 'line', 'path': 'mod_a.py', 'line': a_line, 'name': None,
+                        'action': recipe['extra_a']})
+        if recipe['b_kind'] == 'line':
+            tps.append({'id': 'tp2', 'kind': 'line', 'path': 'mod_a.py', 'line': b_line, 'name': None,
+                        'action': recipe['b_action']})
+        else:
+            tps.append({'id': 'tp2', 'kind': 'method', 'path': 'mod_a.py', 'line': -1, 'name': 'f1',
+                        'action': recipe['b_action']})
+        rec = Recorders()
+        triggers = install(tps, recipe['route'])
+        handler, cfg, _ = lab.make_handler(triggers, plugins=rec.plugins(), push=rec.push)
+        ip = probe.Interposer(handler.trace_call)
+        rec.mark()
+        res = progs.run_program(OVERLAP_PROG, rendered, tracer=ip.trace, values=[SpawnOnStr()])
+        if 'TB' not in res.thread_results:
+            raise lab.HarnessError('thread B did not run inside the collection of thread A')
+        exp = sorted(a for tp in tps for a in actions_of(tp))
+        got = sorted(rec.since_mark())
+        if ip.agent_raised:
+            out.violate('agent raised into the program: %s' % ip.agent_raised[0][1])
+        if got != exp:
+            missing = [a for a in exp if a not in got]
+            extra = [a for a in got if a not in exp]
+            who = 'thread B (hit during another thread\'s processing)' if any(m[0] == 'tp2' for m in missing) else 'thread A'
+            out.violate('overlapping threads: %s' % ('due action missing in %s' % who if missing else 'extra action'),
+                        {'missing': missing, 'extra': extra})
+        lab.reset_world()
+        return out
 
     def run_case(self, recipe):
+        if recipe.get('mode') == 'overlap':
+            return self.run_overlap(recipe)
         out = Outcome()
         lab.reset_world()
         rendered = progs.render(recipe['prog'])
